@@ -295,12 +295,22 @@ def stream_line(art, extents, extra_init=(), tids=None, parts=False):
     infos = []
     from ethosu.vela.high_level_command_stream import NOP
 
+    # lookup tables are identified by content: two constants with equal bytes (the exponent table of two equal SOFTMAX
+    # operators is not de-duplicated in the constants region) count as the same table, as they do for lut.LUTState.
+    # The table's identity is the constants-region address of the first such tensor met in the stream.
+    lut_canon = {}
+
+    def lut_source(t):
+        v = getattr(t, "values", None)
+        key = (str(t.dtype), v.tobytes() if v is not None and hasattr(v, "tobytes") else id(t))
+        return lut_canon.setdefault(key, int(t.address))
+
     if art.sg is not None:
         for c in art.sg.high_level_command_stream:
             if isinstance(c, NOP):
                 tids.union(c.in_tensor, c.out_tensor)
 
-    def fminfo(tens, box, offs):
+    def fminfo(tens, box, offs, shape4d=None):
         if tens is None or box is None:
             return "0,0,0,0,0,0,0,0"
         sc = list(box.start_coord)
@@ -308,6 +318,14 @@ def stream_line(art, extents, extra_init=(), tids=None, parts=False):
             sc.insert(0, 0)
         offs = [int(o) for o in offs]
         assert len(offs) == 4, offs
+        if int(sc[0]) > 0:
+            # a box that starts in a later batch (UNPACK / SPLIT along the batch axis, concatenation write): the Spec's
+            # canonical offsets count from (y, x, c) only, the batch offset is a constant displacement of every tile
+            try:
+                strides = tens.get_strides(shape4d)
+                offs = [o + int(sc[0]) * int(strides[0]) for o in offs]
+            except Exception:
+                pass
         # one offset per tile, in NPU tile order (create_feature_map: addresses[idx] += offset)
         return f"{tids.tid(tens)},{sc[-3]},{sc[-2]},{sc[-1]}," + ",".join(map(str, offs))
 
@@ -316,7 +334,9 @@ def stream_line(art, extents, extra_init=(), tids=None, parts=False):
         if isinstance(npu_op, NpuDmaOperation):
             assert isinstance(cmd, DMA)
             src_region = region_of(cmd.in_tensor.mem_type, arch)
-            if cmd.in_tensor.purpose in (TensorPurpose.Weights, TensorPurpose.LUT) or src_region == 0:
+            if cmd.in_tensor.purpose == TensorPurpose.LUT and int(cmd.in_tensor.address) == int(npu_op.src.address):
+                infos.append(f"D,0,0,0,{lut_source(cmd.in_tensor) - npu_op.dest.address}")
+            elif cmd.in_tensor.purpose in (TensorPurpose.Weights, TensorPurpose.LUT) or src_region == 0:
                 # constant data: dst bytes are tagged (const, src - dst)
                 infos.append(f"D,0,0,0,{npu_op.src.address - npu_op.dest.address}")
             else:
@@ -331,9 +351,11 @@ def stream_line(art, extents, extra_init=(), tids=None, parts=False):
         assert isinstance(cmd, NpuStripe)
         op = cmd.ps.primary_op
         ifm_offs = [int(a) + int(b) for a, b in zip(op.tile_base_offsets_ifm[0], tile_padding_shifts(op, cmd, npu_op))]
-        ifm = fminfo(cmd.ifm_tensor, cmd.ifm_box, ifm_offs)
-        ifm2 = fminfo(cmd.ifm2_tensor, cmd.ifm2_box, op.tile_base_offsets_ifm[1]) if cmd.ifm2_tensor is not None else "0,0,0,0,0,0,0,0"
-        ofm = fminfo(cmd.ofm_tensor, cmd.ofm_box, op.tile_base_offsets_ofm)
+        shp = cmd.ps.ifm_shapes, cmd.ps.ofm_shapes
+        ifm = fminfo(cmd.ifm_tensor, cmd.ifm_box, ifm_offs, shp[0][0] if shp[0] else None)
+        ifm2 = fminfo(cmd.ifm2_tensor, cmd.ifm2_box, op.tile_base_offsets_ifm[1], shp[0][1] if len(shp[0]) > 1 else None) \
+            if cmd.ifm2_tensor is not None else "0,0,0,0,0,0,0,0"
+        ofm = fminfo(cmd.ofm_tensor, cmd.ofm_box, op.tile_base_offsets_ofm, shp[1][0] if shp[1] else None)
         wsrc, ssrc = [], []
         if cmd.weight_tensor is not None:
             wt = cmd.weight_tensor
@@ -356,7 +378,7 @@ def stream_line(art, extents, extra_init=(), tids=None, parts=False):
         luts = [t for t in op.inputs if t.purpose == TensorPurpose.LUT]
         if op.activation_lut is not None and luts:
             flash_lut = luts[0].src_tensor if luts[0].src_tensor is not None else luts[0]
-            lutsrc = int(flash_lut.address)
+            lutsrc = lut_source(flash_lut)
             lutlen = int(luts[0].storage_size())
         infos.append("B," + ifm + "," + ifm2 + "," + ofm + f",{lutsrc},{lutlen},W," +
                      ",".join(map(str, wsrc)) + ",S," + ",".join(map(str, ssrc)))
@@ -479,6 +501,16 @@ def op_meta(art):
             m.update(skirt_top=int(skirt[0]) if skirt is not None else None, skirt_bottom=int(skirt[2]) if skirt is not None else None,
                      ifm_storage_h=int(ss[1]) if len(ss) == 4 else None, ps_id=id(cmd.ps),
                      ifm_eq=str(cmd.ifm_tensor.equivalence_id), ofm_eq=str(cmd.ofm_tensor.equivalence_id))
+            # lookup-table facts (classification of the table-index finding only)
+            try:
+                from ethosu.vela.tensor import TensorPurpose
+
+                luts = [t for t in op.inputs if t.purpose == TensorPurpose.LUT]
+                if op.activation_lut is not None and luts:
+                    m.update(lut_bytes=int(luts[0].storage_size()), lut_index=int(op.activation.lut_index),
+                             lut_offset=int(luts[0].address) - int(art.arch.shram_lut_address))
+            except Exception:
+                pass
         metas.append(m)
     return metas
 
